@@ -276,10 +276,12 @@ func mixCase(s string) string {
 
 // ---- generators
 
-var arpaLabelKinds = []string{"0", "7", "10", "255", "00", "256", "01", "000", "x", "a", "F", "f", "aa", "1a", "g", "-", "_", "İ", "K", "\xff", "in-addr", "ip6", "arpa", "com", "9", "1", "99", "100"}
+var arpaLabelKinds = []string{"0", "7", "10", "255", "00", "256", "01", "000", "x", "a", "F", "f", "aa", "1a", "g", "-", "_", "İ", "K", "\xff", "in-addr", "ip6", "arpa", "com", "9", "1", "99", "100",
+	"srv100", "net172", "x255", "ab1", "a10", "host7", "1in-addr", "10in-addr", "aip6", "fip6", "0ip6"}
 
 func genArpaName(rng *rand.Rand) string {
-	root := pick(rng, "in-addr.arpa", "in-addr.arpa", "ip6.arpa", "ip6.arpa", "in-addr.arpa.", "ip6.arpa.", "IN-ADDR.ARPA", "Ip6.ArPa", "İn-addr.arpa", "ıp6.arpa", "in-addr.arp", "ip6arpa", "xin-addr.arpa", "xip6.arpa", "in-addr.arpa.com", "6.arpa", "addr.arpa")
+	root := pick(rng, "in-addr.arpa", "in-addr.arpa", "ip6.arpa", "ip6.arpa", "in-addr.arpa.", "ip6.arpa.", "IN-ADDR.ARPA", "Ip6.ArPa", "İn-addr.arpa", "ıp6.arpa", "in-addr.arp", "ip6arpa", "xin-addr.arpa", "xip6.arpa", "in-addr.arpa.com", "6.arpa", "addr.arpa",
+		"1in-addr.arpa", "10IN-ADDR.ARPA", "aip6.arpa", "0ip6.arpa", "in\raddr.arpa", "in-addr\x0earpa", "ip\x16.arpa", "ip6\x0earpa")
 	var n int
 	if strings.Contains(strings.ToLower(root), "ip6") {
 		n = pick(rng, 0, 1, 2, 3, 4, 7, 8, 30, 31, 32, 32, 32, 33, 34, rng.IntN(36))
@@ -299,7 +301,13 @@ func genArpaName(rng *rand.Rand) string {
 	}
 	s := strings.Join(append(ls, root), ".")
 	if rng.IntN(12) == 0 {
-		s = pick(rng, "foo.", "a.b.", "1.", "f.", ".", "xn--.") + s
+		s = pick(rng, "foo.", "a.b.", "1.", "f.", ".", "xn--.", "srv100.", "net172.", "x1.", "host255.") + s
+	}
+	if rng.IntN(12) == 0 && len(s) > 0 {
+		// flip bit 5 of one byte of the name (case-fold confusions: '.'/0x0e, '-'/CR, '6'/0x16)
+		b := []byte(s)
+		b[rng.IntN(len(b))] ^= 0x20
+		s = string(b)
 	}
 	return s
 }
@@ -374,12 +382,17 @@ func genC05(rng *rand.Rand, tier string) (cases []string) {
 		maxLen = 5
 	}
 	// bounded-exhaustive label sequences over a small label alphabet, both roots
-	kinds := []string{"0", "7", "10", "255", "00", "256", "01", "x", "a", "F", "aa", "1a"}
+	kinds := []string{"0", "7", "10", "255", "00", "256", "01", "x", "a", "F", "aa", "1a", "srv100", "x7"}
 	var rec func(prefix []string, left int)
 	rec = func(prefix []string, left int) {
 		for _, root := range []string{"in-addr.arpa", "ip6.arpa"} {
 			s := strings.Join(append(append([]string{}, prefix...), root), ".")
 			cases = append(cases, arpaCase("C05.prefix", s), arpaCase("C05.extract", s))
+			if len(prefix) > 0 {
+				// the same labels glued to the root without the separating dot
+				g := strings.Join(prefix, ".") + root
+				cases = append(cases, arpaCase("C05.prefix", g), arpaCase("C05.extract", g))
+			}
 		}
 		if left == 0 {
 			return
